@@ -37,9 +37,9 @@ func pduParamSets(l PDULayout, tier string, extraCounts bool) []pduParams {
 	}
 	add(base)
 	if hasK(l, "list") {
-		cs := []int{0, 2}
+		cs := []int{0, 2, 13}
 		if extraCounts {
-			cs = append(cs, 12, 13)
+			cs = append(cs, 12)
 		}
 		if tier == "thorough" {
 			cs = append(cs, 3, 4, 5, 12, 13, 14, 50, 99, 100, 255)
@@ -122,7 +122,7 @@ func init() {
 			"integers":            "every integer field over its full width (symbolic), including command id, sequence words and the struct's own length field",
 			"fixed-width text":    "symbolic length 0..w+1 and content (no NUL); lengths > w must be refused",
 			"binary fields":       "16-octet authenticators / 10-octet ids: all octet values",
-			"list counts":         "quick {0,1,2}; thorough adds {3,4,5,12,13,14,50,99,100,255} (entries beyond the second at exactly slot width)",
+			"list counts":         "quick {0,1,2,13}; thorough adds {3,4,5,12,13,14,50,99,100,255} (entries beyond the second at exactly slot width)",
 			"body lengths":        "quick {0,1,2,140,255}; thorough adds {3,7,8,70,127,128,139,141,159,160,161,254} and SGIP {256,300}",
 			"optional parameters": "0..2 parameters, distinct symbolic tags, value lengths {0,3} (thorough: one value of 1/255/256 octets); both serialisation orders accepted",
 			"SMPP C-strings":      "all at length 0, 1 or 3, and each one alone at its maximum length",
